@@ -17,7 +17,7 @@ import (
 type c14P struct {
 	Seed    int64
 	NRecs   int
-	FirstID int // -1 random, else the first record's ID
+	FirstID int    // -1 random, else the first record's ID
 	Fault   string // none | cancel | modify-add | modify-erase | modify-replace | ts-only | double | info-modify
 	At      int    // inject before the At-th Get SDR (1-based); for info-modify: before the At-th repository info
 	At2     int
